@@ -63,7 +63,14 @@ def some_id(r, v, want="task"):
     if v.pruned:
         pools.append((("pruned", v.pruned), 5))
     pools.append((("unknown", ["ZZZZZZ", "QQQQQQ"]), 4 if primary else 60))
+    if primary:
+        pools.append((("spelling", primary), 5))
     cls, pool = r.weighted(pools)
+    if cls == "spelling":
+        # ids are exact: another spelling of a live id (case, surrounding blanks) names nothing — whatever a command does with it, it must do
+        # the same thing in every place where it looks the id up
+        i = r.pick(pool)
+        return r.pick([i.lower(), " " + i, i + " ", i.lower() + " ", i[:1].lower() + i[1:], "\t" + i]), cls
     return r.pick(pool), cls
 
 
